@@ -174,6 +174,11 @@ func (x *Exec) runBody(recv *ast.FieldList, ftype *ast.FuncType, body *ast.Block
 	if len(c.Results) != len(resTypes) {
 		engineFail("contract %s names %d results, the function has %d", c.Key, len(c.Results), len(resTypes))
 	}
+	if c.Opts["ghost-calls"] == "true" {
+		// ghost trace of reflect.Value.Call applications: callCount, callSeq[k] = callee value
+		st.names["callCount"] = intLit(0)
+		st.names["callSeq"] = Term{"((as const (Array Int Int)) 0)", arraySort(SInt, SInt)}
+	}
 	if c.Opts["ghost-select"] == "true" {
 		st.names["selCalled"] = boolLit(false)
 		st.names["selCases"] = intLit(0)
@@ -263,6 +268,14 @@ func (x *Exec) runBody(recv *ast.FieldList, ftype *ast.FuncType, body *ast.Block
 			}
 			x.oblige(o, "safe", "no-panic@"+o.note, phi, "")
 			coverPCs = append(coverPCs, o.pcTerm())
+			o.old = pre
+			for i, po := range realParams {
+				if po != nil {
+					o.names[c.Params[i]] = pre.env[po]
+					o.names["$type:"+c.Params[i]] = po.Type()
+				}
+			}
+			x.checkExits(c, o, "panic")
 			continue
 		case outBreak, outContinue:
 			engineFail("break/continue escaped the function body")
@@ -304,6 +317,7 @@ func (x *Exec) runBody(recv *ast.FieldList, ftype *ast.FuncType, body *ast.Block
 			}
 			x.contract = true
 		}
+		x.checkExits(c, o, "return")
 		for i, cn := range c.Canaries {
 			lab := cn.Label
 			if lab == "" {
@@ -340,4 +354,23 @@ func (x *Exec) runBody(recv *ast.FieldList, ftype *ast.FuncType, body *ast.Block
 
 func describeObl(o *Obligation) string {
 	return fmt.Sprintf("%s %s", o.Name, strings.TrimSpace(o.Src))
+}
+
+// checkExits: clauses that must hold however the unit is left (return or panic).
+func (x *Exec) checkExits(c *Contract, o *State, how string) {
+	save := x.saveContractCtx()
+	defer x.restoreContractCtx(save)
+	for i, en := range c.Exits {
+		lab := en.Label
+		if lab == "" {
+			lab = fmt.Sprintf("exits%d", i+1)
+		}
+		x.contract = true
+		phi := x.evalBool(en.Expr, o)
+		x.contract = false
+		ob := x.oblige(o, "exit", lab+"/"+how, phi, en.Src)
+		if en.Prop != "" {
+			ob.Prop = en.Prop
+		}
+	}
 }
